@@ -200,6 +200,9 @@ class SStr:
                 ts.append(z3.StringVal(p))
             elif isinstance(p, Atom) and p.zs is not None:
                 ts.append(p.zs)
+            elif isinstance(p, FmtInt):
+                t = p.term
+                ts.append(z3.If(t >= 0, z3.IntToStr(t), z3.Concat(z3.StringVal("-"), z3.IntToStr(-t))))
             else:
                 return None
         if not ts:
@@ -419,18 +422,28 @@ class Path:
         self.timeout = solver_timeout_ms
         self.inlined = set()
         self.feas_checks = 0
+        self.fresh_log = None
+        self.ghost = {}  # ghost objects created by models (sorted views ...), for lemma hints in contracts
 
     # -- fresh symbols (deterministic across re-execution) --
     def fresh(self, base, sort):
         self.n += 1
-        return z3.Const("%s!%d" % (base, self.n), sort)
+        c = z3.Const("%s!%d" % (base, self.n), sort)
+        if self.fresh_log is not None:
+            self.fresh_log.append(c)
+        return c
 
     def feasible(self, extra):
         s = z3.Solver()
-        s.set("timeout", self.timeout)
-        for c in self.pc:
-            s.add(c)
-        for c in extra:
+        cs = list(self.pc) + list(extra)
+        if any(_contains_quantifier(c) for c in cs):
+            # quantified path condition: only ask whether instantiation refutes it (cheap); never wait for a model
+            s.set("timeout", min(self.timeout, 1500))
+            s.set("smt.mbqi", False)
+            s.set("smt.auto_config", False)
+        else:
+            s.set("timeout", self.timeout)
+        for c in cs:
             s.add(c)
         self.feas_checks += 1
         r = s.check()
@@ -479,6 +492,31 @@ class Path:
     def undecided(self, name, why):
         """An obligation the generator cannot express (outside its subset): reported as unknown."""
         self.obligations.append(Obligation(name, z3.BoolVal(True), self.pc, "undecidable", {"why": why}))
+
+
+_QCACHE = {}
+
+
+def _contains_quantifier(e):
+    k = e.get_id()
+    if k in _QCACHE:
+        return _QCACHE[k]
+    seen = set()
+    todo = [e]
+    found = False
+    while todo:
+        x = todo.pop()
+        if z3.is_quantifier(x):
+            found = True
+            break
+        i = x.get_id()
+        if i in seen:
+            continue
+        seen.add(i)
+        if z3.is_app(x):
+            todo.extend(x.children())
+    _QCACHE[k] = found
+    return found
 
 
 class Outcome:
@@ -1227,11 +1265,23 @@ class Interp:
             src = self.eval(g.iter, frame)
             if hasattr(src, "sym_lazy_filter"):
                 return src.sym_lazy_filter(self, node, g, frame)
-            return self.comprehension(node, frame, "list", first_iter=src)
+            r = self.comprehension(node, frame, "list", first_iter=src)
+            if type(r).__name__ == "SFiltered":
+                from . import seqs
+
+                return seqs.SSeqGen(r)
+            if isinstance(r, SSeq):
+                from . import seqs
+
+                return seqs.SSeqGen(seqs.SFiltered(to_int(r.length), lambda i: z3.BoolVal(True), r.getter, name=r.name))
+            return r
         return self.comprehension(node, frame, "list")
 
     def e_SetComp(self, node, frame):
         r = self.comprehension(node, frame, "list")
+        if type(r).__name__ == "SFiltered":
+            r.is_set = True
+            return r
         if not deep_concrete(r):
             raise Unsupported("set comprehension with symbolic members")
         return set(r)
@@ -1264,11 +1314,15 @@ class Interp:
         if len(node.generators) == 1:
             g = node.generators[0]
             it = self.eval(g.iter, inner) if first_iter is _MISSING else first_iter
+            if type(it).__name__ == "SFiltered":
+                from . import seqs
+
+                return seqs.summarise(self, it, node, g, frame)
             if isinstance(it, SSeq) and not z3.is_int_value(z3.simplify(to_int(it.length))):
-                if g.ifs:
-                    raise Unsupported("filtered comprehension over symbolic-length sequence")
-                if not _is_simple_pure(node.elt, allow_attr=True):
-                    raise Unsupported("comprehension body over symbolic sequence is not simple")
+                if g.ifs or not _is_simple_pure(node.elt, allow_attr=True):
+                    from . import seqs
+
+                    return seqs.summarise(self, it, node, g, frame)
                 interp = self
 
                 def getter(i, g=g, it=it, inner=inner, node=node):
@@ -1465,6 +1519,10 @@ class Interp:
             if isinstance(a, str) and deep_concrete(b):
                 return self.native(_PYOPS[opn], [a, b], {})
             raise Unsupported("string op %s on %r, %r" % (opn, a, b))
+        if opn == "Add" and isinstance(a, list) and type(b).__name__ in ("SFiltered", "SSeq"):
+            from . import seqs
+
+            return seqs.concat_front(a, b)
         if not is_symscalar(a) and not is_symscalar(b):
             if isinstance(a, SObj) or isinstance(b, SObj):
                 return self.obj_binop(opn, a, b)
@@ -2167,6 +2225,16 @@ def call_str_method(interp, bm, args, kwargs):
             interp.path.assumed.add("str.isdigit() accepts exactly the non-empty strings of characters with the Unicode digit property (table taken from the running interpreter)")
             return z3.InRe(zs, zstr.isdigit_re())
         raise Unsupported("isdigit on symbolic string")
+    if name == "isdecimal":
+        if all(isinstance(p, str) for p in s.parts):
+            return s.literal().isdecimal()
+        zs = s.z3()
+        if zs is not None:
+            from . import zstr
+
+            interp.path.assumed.add("str.isdecimal() accepts exactly the non-empty strings of Unicode decimal digits (Nd), which is the digit set int() parses")
+            return z3.InRe(zs, zstr.isdecimal_re())
+        raise Unsupported("isdecimal on symbolic string")
     if name == "encode":
         return s
     raise Unsupported("str.%s on %r" % (name, s))
@@ -2295,7 +2363,7 @@ def havoc_like(path, name, v):
     raise Unsupported("cannot havoc %s = %r" % (name, v))
 
 
-def invariant_loop(label, modifies, inv, elem=None):
+def invariant_loop(label, modifies, inv, elem=None, on_havoc=None):
     """Loop contract for `for target in <symbolic sequence>` (DESIGN 2.2: init / preserve / use).
 
     inv(env, k) -> z3 Bool: invariant after k iterations, `env` maps local names to values.
@@ -2325,6 +2393,8 @@ def invariant_loop(label, modifies, inv, elem=None):
                 frame.locals[name] = havoc_like(path, name, frame.locals[name])
             else:
                 raise Unsupported("loop-modified local %s is unbound before the loop" % name)
+        if on_havoc is not None:
+            on_havoc(path)
         if leg == 0:
             k = path.fresh("k", z3.IntSort())
             path.assume(z3.And(k >= 0, k < n))
@@ -2359,3 +2429,39 @@ def _fork_free(self, n):
 
 
 Path.fork_free = _fork_free
+
+
+def invariant_while(label, modifies, inv, on_havoc=None):
+    """Loop contract for `while <cond>:` (break allowed).  inv(env) -> z3 Bool."""
+
+    def spec(it, node, frame, _unused):
+        if node.orelse:
+            raise Unsupported("while-else under loop contract")
+        path = it.path
+        path.oblige("%s.inv.init" % label, inv(dict(frame.locals)), kind="inv")
+        leg = path.fork_free(2)
+        for name in modifies:
+            if name in frame.locals:
+                frame.locals[name] = havoc_like(path, name, frame.locals[name])
+            else:
+                raise Unsupported("loop-modified local %s is unbound before the loop" % name)
+        if on_havoc is not None:
+            on_havoc(path)
+        path.assume(inv(dict(frame.locals)))
+        if leg == 0:
+            # an arbitrary iteration: guard holds, body runs, invariant re-established (or the loop is left by break/return)
+            if not it.truth(it.eval(node.test, frame)):
+                raise PathDone()
+            try:
+                it.exec_block(node.body, frame)
+            except _Continue:
+                pass
+            except _Break:
+                return  # leaves the loop with the state at the break: execution continues after the loop
+            path.oblige("%s.inv.keep" % label, inv(dict(frame.locals)), kind="inv")
+            raise PathDone()
+        # exit through the guard becoming false
+        if it.truth(it.eval(node.test, frame)):
+            raise PathDone()
+
+    return spec
